@@ -316,6 +316,96 @@ def validate_histories(ctx, trs, nobj):
             ctx.nontrivial.add(tr["tid"])
 
 
+def order_swap(ctx, lc):
+    """Dense families of questions asked in two pristine processes in opposite orders (harness/orderswap.py): many distinct
+    arguments on one object and then earlier ones again; a lattice of near-identical compositions on separate objects;
+    neighbouring compositions of one length.  The two replies to every question are one event of a Trace_Object history
+    (reply / fresh) validated by TLC; the replies of the first process to repeated questions are compared as well."""
+    from .. import orderswap
+    rng = ctx.rng
+    items = []
+    s1 = common.random_sequences(rng, 1, 160, 120)[0] + "KRHDECYSTP"
+    s2 = common.random_sequences(rng, 1, 48, 36)[0]
+    first = []
+    for w in range(1, 101):
+        for q in ("get_linear_NCPR", "get_linear_FCR", "get_linear_sigma", "get_linear_hydropathy"):
+            first.append({"obj": 0, "seq": s1, "q": q, "a": [w]})
+    for k in range(0, 281):
+        for q in ("get_FCR", "get_NCPR", "get_mean_net_charge"):
+            first.append({"obj": 0, "seq": s1, "q": q, "a": [k * 0.05]})
+    for w in range(2, 62):
+        first.append({"obj": 0, "seq": s1, "q": "get_linear_complexity", "a": [rng.choice(["WF", "LC", "LZW"]), rng.choice([20, 8, 3]), {}, w, rng.choice([1, 3])]})
+        first.append({"obj": 0, "seq": s1, "q": "get_linear_sequence_composition", "a": [w, [["K", "R"], [rng.choice("STYG")]]]})
+    for size in (2, 3, 4, 5, 6, 8, 10, 11, 12, 15, 18, 20):
+        first.append({"obj": 0, "seq": s1, "q": "get_reduced_alphabet_sequence", "a": [size]})
+    for _ in range(ctx.pick(20, 80)):
+        g1 = rng.sample(common.AA, rng.randint(1, 4))
+        g2 = rng.sample([a for a in common.AA if a not in g1], rng.randint(1, 4))
+        first.append({"obj": 1, "seq": s2, "q": "get_kappa_X", "a": [g1, g2]})
+    rng.shuffle(first)
+    for k_ in (0, 1):                    # the projection right after construction is logged with each object's first question
+        nx = next(i for i, it in enumerate(first) if it["obj"] == k_)
+        first[nx] = dict(first[nx], post=True)
+    again = [dict(it, post=True) for it in rng.sample(first, ctx.pick(300, 1200))]
+    again += [{"obj": 0, "seq": s1, "q": q, "a": [], "post": True} for q in ("get_linear_NCPR", "get_linear_FCR", "get_linear_sigma", "get_kappa", "get_isoelectric_point")]
+    nfirst = len(first)
+    items = first + again
+    # a lattice of two-residue compositions (one positive, one negative titratable residue), each its own object
+    a_, b_ = rng.choice("KRH"), rng.choice("DECY")
+    lat0 = len(items)
+    top = ctx.pick(59, 75)
+    for i in range(1, top + 1):
+        for j in range(1, top + 1):
+            x = list(a_ * i + b_ * j + "G" * rng.choice([0, 0, 1, 3]))
+            rng.shuffle(x)
+            items.append({"obj": "L%d,%d" % (i, j), "seq": "".join(x), "q": "get_isoelectric_point", "a": [], "post": (i * j) % 7 == 0, "drop": True})
+    # neighbouring compositions of one length: delta-max and kappa
+    nb0 = len(items)
+    for N in (rng.randint(120, 160), 200):
+        p0, n0 = rng.randint(N // 10, N // 5), rng.randint(N // 10, N // 4)
+        for dp in range(0, ctx.pick(3, 5)):
+            for dn in range(0, ctx.pick(3, 5)):
+                x = [1] * (p0 + dp) + [-1] * (n0 + dn) + [0] * (N - p0 - n0 - dp - dn)
+                rng.shuffle(x)
+                sq = common.spell(x, rng)
+                items.append({"obj": "N%d,%d,%d" % (N, dp, dn), "seq": sq, "q": "get_deltaMax", "a": [], "post": True, "block": "N%d,%d,%d" % (N, dp, dn)})
+                items.append({"obj": "N%d,%d,%d" % (N, dp, dn), "seq": sq, "q": "get_kappa", "a": [], "post": True, "drop": True, "block": "N%d,%d,%d" % (N, dp, dn)})
+    fw, rv = orderswap.run_both(ctx, items)
+    ctx.evaluations += 2 * len(items)
+    # the first process: a repeated question gets the reply it got the first time
+    seen = {}
+    for it, r in zip(items[:nfirst], fw[:nfirst]):
+        seen[(it["obj"], it["q"], repr(it["a"]))] = r["d"]
+    for it, r in zip(items[nfirst:lat0], fw[nfirst:lat0]):
+        k = (it["obj"], it["q"], repr(it["a"]))
+        if k in seen and not objmodel.same_reply(seen[k], r["d"]):
+            ctx.violation("reply-depends-on-history", {"seq": it["seq"], "query": it["q"], "args": it["a"], "history": "the same question earlier on this object, %d other questions between" % nfirst},
+                          expected=seen[k][:300], actual=r["d"][:300])
+    # every question: the two processes agree (validated as Trace_Object histories)
+    trs = []
+    byobj = {}
+    for n_, (it, a, b) in enumerate(zip(items, fw, rv)):
+        if not objmodel.same_reply(a["d"], b["d"]):
+            ctx.violation("reply-depends-on-history", {"seq": it["seq"], "query": it["q"], "args": it["a"], "history": "question %d of %d in one pristine process" % (n_ + 1, len(items)),
+                                                       "other_history": "the same list worked through backwards in another pristine process"},
+                          expected=b["d"][:300], actual=a["d"][:300])
+        if not it.get("post"):
+            continue
+        tr = byobj.get(it["obj"])
+        if tr is None:
+            src = a if a.get("post0") else b            # whichever process built the object at this question
+            if not src.get("post0"):
+                continue
+            tr = byobj[it["obj"]] = {"tid": len(trs) + 1, "ev": [{"kind": "construct", "obj": 1, "seq": list(it["seq"]), "post": {"objs": [src["post0"]], "spGrps": 0}}]}
+            trs.append(tr)
+        reply = b["d"] if objmodel.same_reply(a["d"], b["d"]) else a["d"]
+        kind = {"get_deltaMax": "deltaMax", "get_kappa": "kappa"}.get(it["q"], "pure")
+        tr["ev"].append({"kind": kind, "obj": 1, "name": "%s%r" % (it["q"], tuple(it["a"])), "reply": reply, "fresh": b["d"], "post": {"objs": [a["post"]], "spGrps": 0}})
+    validate_histories(ctx, trs, 1)
+    ctx.extra["questions_asked_in_two_orders"] = len(items)
+    ctx.extra["lattice"] = "%s^i %s^j, i, j <= %d" % (a_, b_, top)
+
+
 def run(ctx):
     lc = common.load_repo(ctx.repo)
     defaults = objmodel.Defaults(lc)
@@ -341,6 +431,7 @@ def run(ctx):
     validate_histories(ctx, trs, 3)
     ctx.sample({"trace": [{"kind": e["kind"], "obj": e["obj"], "name": e.get("name")} for e in trs[0]["ev"][:8]]})
     pristine_check(ctx)
+    order_swap(ctx, lc)
     defaults.reset()
     ctx.assumptions += ["reply digests are compared exactly (same float bits) with a twin built from the same sequence, sites and palette in a fresh default-argument state",
                         "hidden state is read through plain attributes (SeqObj.dmax, seqDeltaMax, phosphosites, aminoAcidColorMap, __defaults__)"]
